@@ -21,6 +21,8 @@ meta["what_was_run"] = ("tools/seedcheck.py: scratch worktree of /repo at HEAD, 
                         "(PYTHONPATH=<worktree>), then `VERIF_REPO=<worktree> ./check <ID> --tier quick` for the listed checks; the seeding "
                         "agent ran the repository's test suite with the change (41 passed, 3 skipped)")
 meta["results"] = res
+if os.environ.get("SEED_NOTE"):
+    meta["history"] = os.environ["SEED_NOTE"]
 meta["detected_by"] = sorted(k for k, v in res.get("checks", {}).items() if v["exit"] == 1)
 json.dump(meta, open(f"{dst}/meta.json", "w"), indent=1)
 print(dst, meta["detected_by"])
